@@ -280,8 +280,11 @@ func (x *Exec) typeFacts(st *State, v Val) {
 		st.assume(or(eq(app("sarr", v.T), "0"), app("<", app("birth", app("sarr", v.T)), st.now)))
 	case *types.Pointer, *types.Map, *types.Chan:
 		st.assume(and(app(">=", v.T, "0"), or(eq(v.T, "0"), app("<", app("birth", v.T), st.now))))
-	case *types.Interface, *types.Signature:
+	case *types.Interface:
 		st.assume(app(">=", v.T, "0"))
+	case *types.Signature:
+		// a function value exists before it is handed on (closures: made before now)
+		st.assume(and(app(">=", v.T, "0"), or(eq(v.T, "0"), app("<", app("birth", v.T), st.now))))
 	}
 }
 
@@ -749,6 +752,7 @@ func (x *Exec) stepValue(st *State, ins ssa.Instruction, v ssa.Value) bool {
 		}
 		ref := x.allocRef(st, "closure")
 		st.assume(eq(app("codeOf", ref), num(int64(x.v.funcID(shortName(i.Fn.(*ssa.Function)))))))
+		x.trackAxiom(st, x.v.cf.Funcs[calleeName(i.Fn.(*ssa.Function))], ref, i.Fn.(*ssa.Function), binds)
 		if ccon := x.v.cf.Funcs[calleeName(i.Fn.(*ssa.Function))]; ccon != nil && len(ccon.Captures) > 0 && len(st.frames) == 1 {
 			cfn := i.Fn.(*ssa.Function)
 			vars := map[string]Val{}
@@ -1327,7 +1331,148 @@ func (x *Exec) envFor(st *State) *Env {
 			vars[fv.Name()] = fr.bind[i]
 		}
 	}
+	if len(st.frames) == 1 && x.selfTerm != "" {
+		vars["self"] = term(x.selfTerm, SInt, fr.fn.Signature)
+	}
 	return &Env{x: x, st: st, old: st.entry, vars: vars, entry: st.entry}
+}
+
+// trackAxiom: the closure whose value is `self` (free variables bound as in vars) has a `tracks` clause:
+// its visitor invariant vinv(self, z) is by definition that expression, in every state.
+func (x *Exec) trackAxiom(st *State, con *Contract, self string, fn *ssa.Function, binds []Val) {
+	if con == nil || con.Tracks == nil {
+		return
+	}
+	st2 := st.clone()
+	cq, nq, sq, zq := x.freshBound("C"), x.freshBound("n"), x.freshBound("s"), x.freshBound("z")
+	st2.heap["cell.Int"] = cq
+	x.heapSorts["cell.Int"] = SInt
+	st2.ghost["vis.n"] = nq
+	st2.ghost["vis.stop"] = sq
+	vars := map[string]Val{"self": term(self, SInt, fn.Signature), "z": term(zq, SInt, types.Typ[types.Int])}
+	for k, fv := range fn.FreeVars {
+		if k < len(binds) {
+			vars[fv.Name()] = binds[k]
+		}
+	}
+	env := &Env{x: x, st: st2, old: nil, vars: vars, entry: st.entry, derefOv: map[string]string{}}
+	// a captured variable that nobody writes once the closure exists has one value for the closure's whole
+	// life: the definition uses that value (read from the current state) instead of a read of the quantified state
+	for k := range fn.FreeVars {
+		if k < len(binds) && binds[k].K == VTerm && immutableCapture(fn, k) {
+			pt, ok := fn.FreeVars[k].Type().Underlying().(*types.Pointer)
+			if !ok || isStruct(pt.Elem()) || isArray(pt.Elem()) {
+				continue
+			}
+			es := sortOf(pt.Elem())
+			env.derefOv[binds[k].T] = x.named(st, term(sel(st.H("cell."+es, es), binds[k].T), es, pt.Elem()), "cap").T
+		}
+	}
+	lhsE, perr := parseExpr("vinv(self, z)")
+	if perr != nil {
+		x.errorf("tracks: %v", perr)
+		return
+	}
+	lhs, err := env.evalBool(lhsE)
+	if err != nil {
+		x.errorf("%s: tracks: %v", shortName(fn), err)
+		return
+	}
+	rhs, err := env.evalBool(con.Tracks.E)
+	if err != nil {
+		x.errorf("%s: tracks %q: %v", shortName(fn), con.Tracks.Src, err)
+		return
+	}
+	pats := " :pattern (" + lhs + ")"
+	for _, sub := range vinvSubterms(rhs) {
+		if sub != lhs {
+			pats += " :pattern (" + sub + ")"
+		}
+	}
+	st.assume("(forall ((" + cq + " (Array Int Int)) (" + nq + " Int) (" + sq + " Bool) (" + zq + " Int)) (! (= " + lhs + " " + rhs + ")" + pats + "))")
+}
+
+// vinvSubterms: the (vinv ...) applications occurring in an SMT term (balanced-parenthesis scan).
+func vinvSubterms(t string) []string {
+	var out []string
+	for i := 0; i+6 <= len(t); i++ {
+		if !strings.HasPrefix(t[i:], "(vinv ") {
+			continue
+		}
+		depth := 0
+		for j := i; j < len(t); j++ {
+			if t[j] == '(' {
+				depth++
+			} else if t[j] == ')' {
+				depth--
+				if depth == 0 {
+					out = append(out, t[i:j+1])
+					break
+				}
+			}
+		}
+	}
+	return out
+}
+
+// immutableCapture: free variable k of closure fn is bound (where fn's closure is made) to a private local
+// cell of the enclosing function that is written only before the closure is made and never by the closure.
+func immutableCapture(fn *ssa.Function, k int) bool {
+	parent := fn.Parent()
+	if parent == nil {
+		return false
+	}
+	if storedFreeVars(fn, map[*ssa.Function]bool{})[k] {
+		return false
+	}
+	var mc *ssa.MakeClosure
+	n := 0
+	for _, b := range parent.Blocks {
+		for _, ins := range b.Instrs {
+			if m, ok := ins.(*ssa.MakeClosure); ok && m.Fn == ssa.Value(fn) {
+				mc = m
+				n++
+			}
+		}
+	}
+	if mc == nil || n != 1 || k >= len(mc.Bindings) {
+		return false
+	}
+	a, ok := mc.Bindings[k].(*ssa.Alloc)
+	if !ok || !ptrUsesPrivate(a, map[ssa.Value]bool{}) {
+		return false
+	}
+	for _, r := range *a.Referrers() {
+		switch i := r.(type) {
+		case *ssa.Store:
+			if i.Block() == mc.Block() {
+				before := false
+				for _, ins := range i.Block().Instrs {
+					if ins == ssa.Instruction(i) {
+						before = true
+						break
+					}
+					if ins == ssa.Instruction(mc) {
+						break
+					}
+				}
+				if !before {
+					return false
+				}
+			} else if !i.Block().Dominates(mc.Block()) {
+				return false
+			}
+		case *ssa.MakeClosure:
+			// another closure capturing the same cell must not write it either
+			other := i.Fn.(*ssa.Function)
+			for j, b := range i.Bindings {
+				if b == ssa.Value(a) && storedFreeVars(other, map[*ssa.Function]bool{})[j] {
+					return false
+				}
+			}
+		}
+	}
+	return true
 }
 
 // loopVars adds the named SSA values visible at the loop head (phis with source names).
@@ -1598,6 +1743,7 @@ func (x *Exec) applyHavoc(st *State, ts []target, nowBefore string, al *activeLo
 		whole bool
 		fresh bool
 		refs  []string
+		olders []string
 		ghost bool
 	}
 	groups := map[string]*grp{}
@@ -1613,6 +1759,8 @@ func (x *Exec) applyHavoc(st *State, ts []target, nowBefore string, al *activeLo
 			g.whole = true
 		} else if t.fresh {
 			g.fresh = true
+		} else if t.older != "" {
+			g.olders = append(g.olders, t.older)
 		} else {
 			g.refs = append(g.refs, t.ref)
 		}
@@ -1631,6 +1779,14 @@ func (x *Exec) applyHavoc(st *State, ts []target, nowBefore string, al *activeLo
 			nw := st.havocH(name, g.esort)
 			if al != nil {
 				al.whole[name] = true
+				if strings.HasPrefix(name, "cell.") && al.head != nil {
+					// a private cell that is written only before the loop (and by no closure) keeps its value
+					for _, c := range st.cells {
+						if "cell."+c.es == name && x.cellPrivate(c.alloc) && writtenOnlyBefore(c.alloc, al.head) {
+							st.assume(eq(sel(nw, c.ptr), sel(old, c.ptr)))
+						}
+					}
+				}
 			} else if strings.HasPrefix(name, "cell.") {
 				// a callee cannot reach the caller's private cells (locals whose address never escapes);
 				// the ones captured by a closure handed to the callee are havocked by escapeHavoc
@@ -1652,11 +1808,27 @@ func (x *Exec) applyHavoc(st *State, ts []target, nowBefore string, al *activeLo
 		if g.fresh {
 			exc = append(exc, app("<", app("birth", r), nowBefore))
 		}
+		for _, o := range g.olders {
+			exc = append(exc, app(">=", app("birth", r), app("birth", o)))
+		}
+		if len(exc) == 0 {
+			exc = append(exc, "true")
+		}
 		st.assume("(forall ((" + r + " Int)) (! (=> " + and(exc...) + " (= (select " + nw + " " + r + ") (select " + old + " " + r + "))) :pattern ((select " + nw + " " + r + "))))")
+		if al == nil && len(g.olders) > 0 && strings.HasPrefix(name, "cell.") {
+			for _, c := range st.cells {
+				if "cell."+c.es == name && x.cellPrivate(c.alloc) {
+					st.assume(eq(sel(nw, c.ptr), sel(old, c.ptr)))
+				}
+			}
+		}
 		if al != nil {
 			al.targets[name] = append(al.targets[name], g.refs...)
 			if g.fresh {
 				al.targets[name] = append(al.targets[name], "fresh")
+			}
+			for _, o := range g.olders {
+				al.targets[name] = append(al.targets[name], "older:"+o)
 			}
 		}
 	}
@@ -1685,6 +1857,10 @@ func (x *Exec) frameCheck(st *State, snap *Snapshot, targets map[string][]string
 		var exc []string
 		for _, ref := range targets[n] {
 			if ref == "fresh" {
+				continue
+			}
+			if strings.HasPrefix(ref, "older:") {
+				exc = append(exc, app(">=", app("birth", r), app("birth", strings.TrimPrefix(ref, "older:"))))
 				continue
 			}
 			exc = append(exc, not(eq(r, ref)))
@@ -1809,6 +1985,30 @@ func funcValueNotStored(v ssa.Value, seen map[ssa.Value]bool) bool {
 			}
 		default:
 			return false
+		}
+	}
+	return true
+}
+
+// writtenOnlyBefore: every store to the local cell a happens in a block that strictly dominates the loop
+// head, and no closure that captures a stores to it.
+func writtenOnlyBefore(a *ssa.Alloc, head *ssa.BasicBlock) bool {
+	if a.Block() == nil || a.Block().Parent() != head.Parent() {
+		return false
+	}
+	for _, r := range *a.Referrers() {
+		switch i := r.(type) {
+		case *ssa.Store:
+			if i.Block() == head || !i.Block().Dominates(head) {
+				return false
+			}
+		case *ssa.MakeClosure:
+			fn := i.Fn.(*ssa.Function)
+			for j, b := range i.Bindings {
+				if b == ssa.Value(a) && storedFreeVars(fn, map[*ssa.Function]bool{})[j] {
+					return false
+				}
+			}
 		}
 	}
 	return true
